@@ -2,15 +2,20 @@ from props.common import run_all as run  # noqa: F401
 
 META = {'claimed': True,
  'title': 'Random generator is HMAC_DRBG(SHA-256) over OS entropy, reseeded on schedule',
- 'level_text': "proof: crypto_entropy.c (statics, instantiate, update, reseed, generate, the 65536-byte chunk loop) and util/entropy.c's read loop are modelled with constants regenerated from the C "
-               '(proved to be interval 256, max 65536, seed 48/32, separators 0/1, ...). For ALL request sequences, ALL initial statics and ALL entropy oracles the model never aborts and its '
-               'per-call results, final (Key, V, reseed_counter, instantiated) and oracle consumption equal those of the SP 800-90A 10.1.2 HMAC_DRBG machine (C11_drbg_refines_spec, parametric in '
-               "HMAC; C11_generator_is_hmac_drbg_sha256 with the HMAC hypotheses discharged by C01's theorems for alg/sha256.c); a request of n bytes makes exactly ceil(n/65536) generate calls "
-               '(C11_generate_count); fresh entropy is mixed in exactly before generate calls 257, 513, ... (C11_reseed_schedule); every generate ran seeded with reseed_counter <= 256, entropy reads '
-               "are the oracle's answers in order, a call fails iff one of its entropy reads failed, a failed instantiation leaves the statics untouched, and success implies a successful 48-byte "
-               'instantiate in the history (C11_no_unseeded_output, C11_call_facts). 11 theorems, unbounded in history. Bound to the C by the correspondence run (entropy source interposed with '
-               'scripted bytes and failures at every position; request sizes around 65536 multiples; > 256 generate calls; output = model = spec).',
- 'level_note': 'Trusted: Coq kernel; hand-written model bound by differential execution; the transcription of SP 800-90A 10.1.2 in Crypto/DrbgSpec.v; the OS entropy source is an oracle (list of read '
-               'answers). Print Assumptions: closed under the global context.',
+ 'level_text': 'proof: crypto_entropy.c (statics, instantiate, update, reseed, generate, the 65536-byte chunk loop) and util/entropy.c in full (entropy_read_init/fill/done and the one-shot '
+               'entropy_read, over scripted answers of open/read/close) are modelled with constants regenerated from the C (proved to be interval 256, max 65536, seed 48/32, separators 0/1, ...). '
+               'For ALL request sequences, ALL initial statics and ALL entropy oracles the model never aborts and its per-call results, final (Key, V, reseed_counter, instantiated) and oracle '
+               'consumption equal those of the SP 800-90A 10.1.2 HMAC_DRBG machine (C11_drbg_refines_spec, parametric in HMAC; C11_generator_is_hmac_drbg_sha256 with the HMAC hypotheses discharged '
+               "by C01's theorems for alg/sha256.c); a request of n bytes makes exactly ceil(n/65536) generate calls (C11_generate_count); fresh entropy is mixed in exactly before generate calls "
+               "257, 513, ... (C11_reseed_schedule); every generate ran seeded with reseed_counter <= 256, entropy reads are the oracle's answers in order, a call fails iff one of its entropy reads "
+               'failed, a failed instantiation leaves the statics untouched, and success implies a successful 48-byte instantiate in the history (C11_no_unseeded_output, C11_call_facts). '
+               'entropy_read returns 0 iff open succeeded, at least n bytes arrived before the first read error/EOF (short reads tolerated) and close succeeded (C11_entropy_read_wrapper, '
+               'C11_entropy_read_fill_exact / _succeeds / _fails_why); the generator composed over it equals SP 800-90A fed with the bytes the sessions delivered and fails a call exactly when one of '
+               'its sessions failed (C11_generator_with_os_entropy, C11_os_call_facts). 21 theorems, unbounded in history. The HMAC/DRBG theorems are over the portable SHA-256 transform model; every '
+               'accelerated configuration of sha256.c is proved equal to it under C03 and run as a lower layer of this check. Bound to the C by the correspondence run (the real util/entropy.c linked '
+               'with open/read/close interposed: short reads, EOF, errors at every byte position of the instantiation and of both reseeds, open/close failures; request sizes around 65536 multiples; '
+               '> 256 generate calls; output = model = spec).',
+ 'level_note': 'Trusted: Coq kernel; hand-written model bound by differential execution; the transcription of SP 800-90A 10.1.2 in Crypto/DrbgSpec.v; the kernel behind the interposed open/read/close '
+               'is an oracle; malloc in entropy_read_init is assumed to succeed. Print Assumptions: closed under the global context.',
  'trusted_base': ['transcription of SP 800-90A HMAC_DRBG in coq/Crypto/DrbgSpec.v', 'interposed entropy source in the driver'],
  'assumptions': []}
